@@ -313,6 +313,10 @@ def check(case):
         if not (fin(mpp) and mpp > 0 and fin(mpu)):
             F('admissible', 'success reported with p*=%s u*=%s' % (mpp, mpu))
         else:
+            # the iteration stops at a relative change < tol: partners may
+            # stop at different iterates (van_leer clamps its first guess at
+            # the absolute 1e-25), so they agree to the tolerance only
+            TT = mp.mpf(20 * a['tol'])
             # Galilean shift (exact in 60 digits)
             c = dict(a)
             c['ul'] = mp.mpf(a['ul']) + mp.mpf(a['shift'])
@@ -323,11 +327,12 @@ def check(case):
                 F('galilean', 'success, but failure %r after adding %r to '
                   'both velocities' % (crc, a['shift']))
             else:
-                if abs(cp - mpp) > T * mp.mpf('1e10') * max(PS, mpp):
+                if abs(cp - mpp) > (T * mp.mpf('1e10') + TT) * max(PS, mpp):
                     F('galilean', 'p*=%s, shifted by %r gives %s' % (
                         mp.nstr(mpp, 17), a['shift'], mp.nstr(cp, 17)),
                       quantity='p')
-                if abs((cu - a['shift']) - mpu) > T * mp.mpf('1e10') * max(
+                if abs((cu - a['shift']) - mpu) > (T * mp.mpf('1e10') +
+                                                   TT) * max(
                         US, abs(a['shift'])):
                     F('galilean', 'u*=%s, shifted by %r gives %s' % (
                         mp.nstr(mpu, 17), a['shift'], mp.nstr(cu, 17)),
@@ -349,12 +354,12 @@ def check(case):
                     F('scaling', 'success, but failure %r after scaling p '
                       'and rho by %r' % (erc, a['lam']))
                 else:
-                    if abs(ep / lam - mpp) > T * mp.mpf('1e10') * max(
-                            PS, mpp):
+                    if abs(ep / lam - mpp) > (T * mp.mpf('1e10') +
+                                              TT) * max(PS, mpp):
                         F('scaling', 'p*=%s, scaled by %r gives %s/lam=%s'
                           % (mp.nstr(mpp, 17), a['lam'], mp.nstr(ep, 17),
                              mp.nstr(ep / lam, 17)), quantity='p')
-                    if abs(eu - mpu) > T * mp.mpf('1e10') * US:
+                    if abs(eu - mpu) > (T * mp.mpf('1e10') + TT) * US:
                         F('scaling', 'u*=%s, scaled data gives %s' % (
                             mp.nstr(mpu, 17), mp.nstr(eu, 17)),
                           quantity='u')
